@@ -120,6 +120,11 @@ func (f *RawMessageFilter) ConsumeCacheMessages(consensusMessagesHandler Consens
 		f.logger.Debug("LHFILTER consuming %d messages from height=%d", len(messages), height)
 	}
 	for _, message := range messages {
+		if f.state.Height() != height {
+			// one of the cached messages committed this height: the node has moved on and the next term has already
+			// consumed its own cache, so the remaining messages of this height are stale
+			break
+		}
 		f.processConsensusMessage(message)
 	}
 	delete(f.futureCache, height)
